@@ -70,6 +70,8 @@
 #include <xalanc/XSLT/XSLTInputSource.hpp>
 #include <xalanc/XSLT/XSLTResultTarget.hpp>
 #include <xalanc/XalanTransformer/XalanCompiledStylesheet.hpp>
+#include <xalanc/XPath/Function.hpp>
+#include <xalanc/XPath/XObjectFactory.hpp>
 #include <xalanc/XalanTransformer/XalanParsedSource.hpp>
 #include <xalanc/XalanTransformer/XalanTransformer.hpp>
 
@@ -333,7 +335,7 @@ static bool parseScenario(const std::string& data, Scenario& sc, std::string& er
                 if (c != std::string::npos) { s.unit = atoi(tok.c_str() + c + 1); tok = tok.substr(0, c); }
                 s.op = tok;
                 static const char* const ops[] = {"new", "delete", "compile", "parse", "parsex", "run", "runcp", "runcs", "runps",
-                                                  "dcs", "dps", "params", "clearparams", 0};
+                                                  "dcs", "dps", "params", "clearparams", "install", "uninstall", 0};
                 bool ok = false;
                 for (int i = 0; ops[i]; ++i) if (s.op == ops[i]) ok = true;
                 if (!ok || s.slot < 0 || s.slot > 3) { err = "bad step " + s.text; return false; }
@@ -498,6 +500,20 @@ enum ExcKind { X_NONE = 0, X_OOM, X_BADALLOC, X_XSL, X_XML, X_SAX, X_DOM, X_STD,
 static const char* const excName[] = {"", "OutOfMemoryException", "std::bad_alloc", "XSLException", "XMLException", "SAXException",
                                       "XalanDOMException", "std::exception", "unknown"};
 
+// {urn:xf}twice(x) = 2 * number(x): an installable extension function whose clone goes through the transformer's manager
+class XfTwice : public Function
+{
+public:
+    virtual XObjectPtr execute(XPathExecutionContext& ctx, XalanNode* context, const XObjectArgVectorType& args, const Locator* locator) const
+    {
+        if (args.size() != 1) generalError(ctx, context, locator);
+        return ctx.getXObjectFactory().createNumber(2 * args[0]->num(ctx));
+    }
+    virtual XfTwice* clone(MemoryManager& theManager) const { return XalanCopyConstruct(theManager, *this); }
+protected:
+    virtual const XalanDOMString& getError(XalanDOMString& r) const { r.assign("twice() takes one argument"); return r; }
+};
+
 struct Runner
 {
     const Scenario& sc;
@@ -592,6 +608,14 @@ struct Runner
         if (s.op == "clearparams")
         {
             T->clearStylesheetParams();
+            return 0;
+        }
+        if (s.op == "install" || s.op == "uninstall")
+        {
+            // per-transformer extension function {urn:xf}twice; installing an installed name REPLACES the function
+            const XalanDOMString ns("urn:xf", mm), fn("twice", mm);
+            if (s.op == "install") T->installExternalFunction(ns, fn, XfTwice());
+            else T->uninstallExternalFunction(ns, fn);
             return 0;
         }
         // transformations
